@@ -278,13 +278,14 @@ impl RuntimeData {
     }
 
     pub fn set_memory_limit(&mut self, capacity: usize) {
-        self.clear();
         unsafe {
             self.memory
                 .get_inner()
                 .limit
                 .store(capacity, std::sync::atomic::Ordering::Relaxed);
         }
+        // after the new limit is stored: `clear` derives the first collection threshold from it
+        self.clear();
     }
 
     /// Types implementing Drop are not supported, thus the `Copy` bound
